@@ -415,7 +415,8 @@ func (iter *flattenIterator[T]) Next() (T, bool) {
 // and so on.
 func Join[T any](iters ...Iterator[T]) Iterator[T] {
 	return &joinIterator[T]{
-		iters: iters,
+		// The argument list belongs to the caller, who may reuse it once Join has returned.
+		iters: append([]Iterator[T](nil), iters...),
 	}
 }
 
